@@ -372,9 +372,127 @@ def case_chains(B, cfg):
                len(hit) == 1, repr([T.show(a) for a in args]))
 
 
+def case_opt_table(B, cfg):
+    """OptimisationController.run over a stub of pints.OptimisationController
+    that returns fresh symbolic estimates and a symbolic score per run (one
+    run may break, which chi documents to fill with NaN): every table row
+    pairs an estimate with its parameter name, ID, the run's score and the
+    run number"""
+    import chi._inference as inf
+    hierarchical = cfg.get('units') is not None
+    if hierarchical:
+        H = hier.build(B, cfg)
+        hl = H['hl']
+        n_top = hl.n_parameters(exclude_bottom_level=True)
+        post = chi.HierarchicalLogPosterior(hl, SymPrior(B, n_top))
+    else:
+        mm = SymMechModel(B, 2, 1)
+        ll = chi.LogLikelihood(mm, chi.GaussianErrorModel(),
+                               [B.var('y0'), B.var('y1')], [1.0, 2.5])
+        ll.set_id('patient 7')
+        post = chi.LogPosterior(ll, SymPrior(B, 3))
+    N = post.n_parameters()
+    n_runs = cfg['n_runs']
+    broken = cfg.get('broken')
+    handed = []
+    est = [[B.var('est[%d|%d]' % (r, k)) for k in range(N)]
+           for r in range(n_runs)]
+    score = [B.var('score[%d]' % r) for r in range(n_runs)]
+
+    class StubOpt(object):
+        def __init__(self, function, x0, method=None, transformation=None,
+                     **kw):
+            self.r = len(handed)
+            handed.append((function, list(x0)))
+
+        def set_log_to_screen(self, *a, **k):
+            pass
+
+        def set_max_iterations(self, *a, **k):
+            pass
+
+        def set_parallel(self, *a, **k):
+            pass
+
+        def run(self):
+            if self.r == broken:
+                raise RuntimeError('optimiser broke')
+            return ps.arr(B, est[self.r]), score[self.r]
+
+    old = inf.pints
+
+    class _P(object):
+        OptimisationController = StubOpt
+
+        def __getattr__(self, name):
+            return getattr(old, name)
+
+    ctrl = chi.OptimisationController.__new__(chi.OptimisationController)
+    ctrl._log_posterior = post
+    ctrl._n_runs = n_runs
+    x0 = [[B.var('x0[%d|%d]' % (r, k)) for k in range(N)]
+          for r in range(n_runs)]
+    ctrl._initial_params = ps.arr(B, x0)
+    ctrl._optimiser = None
+    ctrl._transform = None
+    ctrl._parallel_evaluation = False
+    inf.pints = _P()
+    try:
+        df = ctrl.run()
+    finally:
+        inf.pints = old
+    names = post.get_parameter_names()
+    ids = post.get_id()
+    if not isinstance(ids, list):
+        ids = [ids] * N
+    B.fact('one optimisation per run, started at that run\'s initial point',
+           len(handed) == n_runs and all(
+               f is post and all(Sym.lift(a).t is Sym.lift(b).t
+                                 for a, b in zip(x, x0[r]))
+               for r, (f, x) in enumerate(handed)))
+    B.fact('table: one row per run and parameter', len(df) == n_runs * N,
+           '%d vs %d' % (len(df), n_runs * N))
+    if len(df) != n_runs * N:
+        return
+    rows = [r for _, r in df.iterrows()]
+    for r in range(n_runs):
+        for k in range(N):
+            row = rows[r * N + k]
+            B.fact('run %d entry %d: parameter name' % (r + 1, k),
+                   row['Parameter'] == names[k], repr(row['Parameter']))
+            B.fact('run %d entry %d: ID' % (r + 1, k),
+                   row['ID'] == ids[k] or (row['ID'] is None and
+                                            ids[k] is None) or
+                   (ids[k] is None and row['ID'] != row['ID']),
+                   '%r vs %r' % (row['ID'], ids[k]))
+            B.fact('run %d entry %d: run number' % (r + 1, k),
+                   row['Run'] == r + 1, repr(row['Run']))
+            if r == broken:
+                B.fact('run %d entry %d: a broken run is filled with NaN'
+                       % (r + 1, k), row['Estimate'] != row['Estimate'] and
+                       row['Score'] != row['Score'])
+            else:
+                B.eq('run %d entry %d: estimate' % (r + 1, k),
+                     row['Estimate'], est[r][k])
+                B.eq('run %d entry %d: score of the run' % (r + 1, k),
+                     row['Score'], score[r])
+
+
 def jobs(tier):
     out = []
     q = tier == 'quick'
+    U_ = hier.unit
+    for broken in (None, 0, 1):
+        out.append(('opt_table', 'case_opt_table',
+                    dict(n_runs=2, broken=broken), F))
+        for c, n_ids, labels in (
+                ([U_('gaussian'), U_('pooled')], 2, None),
+                ([U_('hetero'), U_('lognormal_nc')], 3,
+                 ['pat-C', 'pat-A', 'pat-B']),
+                ([U_('pooled', 2)], 2, None)):
+            out.append(('opt_table', 'case_opt_table', dict(
+                units=c, n_ids=n_ids, id_labels=labels, n_runs=3,
+                broken=broken), F))
     comps = c02.compositions(2, [2])
     if not q:
         comps = c02.compositions(3, [2, 3])[::3]
@@ -436,8 +554,9 @@ BOUNDS = dict(
     thorough='a third of the compositions of <= 3 sub-models with dimension '
              '2-3, 1-3 individuals (3 individuals with at most one '
              'heterogeneous dimension), all covariate variants, 3 draws',
-    outside='the optimisation result table (needs a pints optimiser run on '
-            'floats and only zips four lists); running the samplers '
-            'themselves; arviz conversion')
+    outside='running the optimisers / samplers themselves (the optimiser is '
+            'a stub returning symbolic estimates and scores; chains are a '
+            'symbolic array); arviz conversion')
 TRUSTED = ['RNG stub', 'prior stub (fresh symbols per draw)',
+           'pints.OptimisationController stub (returns symbolic estimates)',
            'xarray object arrays', 'z3']
